@@ -41,7 +41,7 @@ def run_demo(d, wt):
         if f.endswith((".cpp", ".hpp", ".sh", ".py", ".txt", ".csv", ".json")) and f not in ("meta.json", "result.json", "confirm.json"):
             shutil.copy(os.path.join(d, f), work)
     if os.path.exists(runsh):
-        return sh("timeout 900 sh ./run.sh", cwd=work, timeout=1000)
+        return sh("timeout 900 bash ./run.sh", cwd=work, timeout=1000)
     rc, out = sh(f"mpicxx -std=c++17 -O1 -I{wt}/include demo.cpp -o demo", cwd=work)
     if rc != 0:
         return rc, "demo does not compile: " + out[-800:]
